@@ -914,9 +914,12 @@ func (p *balloons) deleteBalloon(bln *Balloon) {
 	p.balloons = remainingBalloons
 	p.forgetCpuClass(bln)
 	p.freeCpus = p.freeCpus.Union(bln.Cpus)
+	freedCpus := bln.Cpus.Clone()
 	if _, err := p.cpuAllocator.ReleaseCpus(&bln.Cpus, bln.Cpus.Size(), bln.Def.AllocatorPriority.Value().Option()); err != nil {
 		log.Warnf("failed to release CPUs %q of balloon %s[%d]: %v", bln.Cpus, bln.Def.Name, bln.Instance, err)
 	}
+	// CPUs of the deleted balloon are idle again, share them.
+	p.updatePinning(p.shareIdleCpus(freedCpus, cpuset.New())...)
 }
 
 // freeBalloon clears a balloon and deletes it if allowed.
@@ -967,7 +970,9 @@ func (p *balloons) fillableBalloonInstances(blnDef *BalloonDef, fm FillMethod, c
 			}
 		}
 		undoFuncs = append(undoFuncs, func() {
+			p.forgetCpuClass(newBln)
 			p.freeCpus = p.freeCpus.Union(newBln.Cpus)
+			p.updatePinning(p.shareIdleCpus(newBln.Cpus, cpuset.New())...)
 		})
 		if newBln.MaxAvailMilliCpus(p.freeCpus) < reqMilliCpus {
 			// New balloon cannot be inflated to fit new
